@@ -73,6 +73,20 @@ func main() {
 			findings = pf
 			e = pe
 		}
+		if *claim == "C11" && *par == 0 && memo == nil {
+			hasFault := false
+			for _, o := range e.Ops {
+				for _, a := range o.Plan {
+					// node functions that fail or write vars are not pure: whether they run at all
+					// legitimately differs between a program and its cutoff-free twin
+					hasFault = true
+					_ = a
+				}
+			}
+			if !hasFault {
+				findings = append(findings, eng.RunEraseTwin(e)...)
+			}
+		}
 		seenKind := map[string]bool{}
 		for _, f := range findings {
 			sig := f.Prop + ":" + f.Kind
